@@ -31,7 +31,14 @@ Step ==
   \/ \E x \in {"sa", "na"} : <<"unit", x>> \notin asked /\ Cardinality(asked) < 2 /\ Lookup("unit", x)
   \/ <<"prefix", "sa">> \notin asked /\ Cardinality(asked) < 2 /\ Lookup("prefix", "sa")
 DimStep ==
-  \/ \E k \in {"d2", "d3"}, n \in N1 : Declare("dim-define", "dimension", k, n, "", TRUE)
+  \/ \E k \in {"d2", "d3"}, n \in N1 :
+        \* (while d2 exists only anonymously it IS the next fundamental dimension: no other one is defined meanwhile)
+        /\ (k = "d3" => ("d2" \notin known["dimension"] \/ NamesOf("dimension", "d2") # <<>>))
+        /\ Declare("dim-define", "dimension", k, n, "", TRUE)
+  \* the exponents a new fundamental dimension will get may already exist as an ANONYMOUS dimension (built directly or
+  \* decoded from a document written by a process that had defined it): defining it then must still bind its name
+  \/ "d2" \notin known["dimension"] /\ Anon("dimension", "d2")
+  \/ \E n \in N1 : "d2" \in known["dimension"] /\ NamesOf("dimension", "d2") = <<>> /\ Declare("dim-define", "dimension", "d2", n, "", FALSE)
   \/ \E k \in known["dimension"], n \in N1 : NamesOf("dimension", k) = <<>> /\ Declare("dim-derive", "dimension", k, n, "", FALSE)
   \/ "d1" \notin known["dimension"] /\ Anon("dimension", "d1")
   \/ \E x \in N1 : <<"dimension", x>> \notin asked /\ Cardinality(asked) < 2 /\ Lookup("dimension", x)
